@@ -55,6 +55,10 @@ def cfgs_for(d, p, cfgset, tier):
                     out.append({'entry': 'conelp', 'storage': st, 'kkt': k, 'opts': OPTSETS[on], 'optname': on})
         out.append({'entry': 'conelp', 'storage': 'dense', 'kkt': 'ref'})
         out.append({'entry': 'conelp', 'storage': 'sparse', 'kkt': 'ref', 'opts': LOOSE})
+        if p:
+            for k in (None, 'ldl2'):
+                out.append({'entry': 'conelp', 'storageG': 'sparse', 'storageA': 'dense', 'kkt': k})
+                out.append({'entry': 'conelp', 'storageG': 'dense', 'storageA': 'sparse', 'kkt': k, 'opts': LOOSE})
         for stt in ('both', 'primal', 'dual'):
             out.append({'entry': 'conelp', 'storage': 'dense', 'kkt': None, 'start': stt})
             out.append({'entry': 'conelp', 'storage': 'sparse', 'kkt': 'ldl', 'start': stt, 'opts': LOOSE})
